@@ -18,14 +18,14 @@ META = {
                  "contract PipelineTrace.tla against a reference recorded from the same pipeline with channels that never fill",
     "design_ref": "DESIGN.md section 6, C13",
     "level_text": "Exhaustive within bounds on the model (all interleavings of 3(4) stages, 4(5) messages, every capacity "
-                  "vector over {0,1,2}, every drop position, incl. liveness under weak fairness). On the real code thread "
+                  "vector over {0,1,2} ({0,2} for the 4-stage chain), every drop position, incl. liveness under weak fairness). On the real code thread "
                   "interleavings cannot be enumerated (no loom-style scheduler): the runs sample them, steered by capacities "
                   "0/1/2/7/64 and pacing scripts; each sampled execution is judged by TLC against the contract.",
     "level_note": "Trusted: TLC, the driver projection (position tag in the payload, hash over all fields except the lifecycle "
                   "id). The hook counter adlt::verif::SEND_FULL_HITS proves that the helper's Full branch ran (vacuity guard, "
                   "not a verdict). Lifecycle ids are compared up to an injective renaming built by TLC. Sorted pipelines are "
                   "only checked for permutation (the order is C10's claim; the sorter reads the lifecycle table while the "
-                  "detector still updates it). Termination is observed with a 45 s bound after eos/drop and a 90 s bound on "
+                  "detector still updates it). Termination is observed with a 120 s bound after eos/drop and a 300 s bound on "
                   "any single receive. Streams are clean boots (monotone reception times, sane timestamps): detector corner "
                   "cases are C05's; a case whose reference run itself fails is skipped and counted.",
 }
@@ -143,29 +143,11 @@ def check(ctx):
     binp = c.build_harness("c13")
     trace = ctx.path("trace.ndjson")
     nrand, maxlen, scnlen = (72, 200, 40) if quick else (800, 800, 60)
-    if getattr(ctx, "replay", None):
-        rep = json.load(open(ctx.replay))["replay"]
-        scn, nscn = emit(ctx, rep.get("tier", "quick") == "quick")
-        nr, ml, sl = (72, 200, 40) if rep.get("tier", "quick") == "quick" else (800, 800, 60)
-        p = c.run([binp, "--out", trace, "--scenarios", scn, "--random", str(nr), "--seed", str(rep["seed"]), "--max-len", str(ml),
-                   "--scn-len", str(sl), "--only", str(rep["case"])], timeout=600)
-        v = c.validate_trace(ctx, "pipeline", "PipelineTrace.tla", trace)
-        ctx.add_tlc("trace-validation", v.res)
-        for line in open(trace):
-            c.log(line.rstrip()[:400])
-        for r in v.rejected:
-            c.log("first unmatched event: line %d %s" % (r[1], r[2]))
-        cases = c.split_cases(trace)
-        ctx.evaluations = len(cases)
-        for k in sorted(v.violations):
-            ctx.violation("replayed case rejected by PipelineTrace (thread schedules are not reproducible: the same pacing "
-                          "script was run again)", {"case": k, "trace": cases.get(k)})
-        ctx.traces_validated = len(cases) - len(v.violations)
-        return
     # (a) model checking: safety for every capacity vector / interleaving, liveness with and without consumer drop
     c.tlc_must_pass(ctx, "design", "mc/MCPipeline.tla", "Pipeline_quick.cfg", timeout=3000)
     if not quick:
         c.tlc_must_pass(ctx, "design-lf6", "mc/MCPipeline.tla", "Pipeline_lf.cfg", timeout=3000)
+        c.tlc_must_pass(ctx, "design-lfs5", "mc/MCPipeline.tla", "Pipeline_lfs5.cfg", timeout=3000)
         c.tlc_must_pass(ctx, "design-full", "mc/MCPipeline.tla", "Pipeline_thorough.cfg", timeout=6000)
     # (b) scenarios: capacity vectors x drop positions x pacing hints (initial states of the model)
     scn, nscn = emit(ctx, quick)
@@ -233,9 +215,9 @@ def check(ctx):
         ctx.violation("case %d rejected by PipelineTrace at line %s: %s" % (k, r[1] if r else "?", r[2] if r else "unfinished"),
                       {"case": k, "seed": ctx.seed, "tier": ctx.tier, "first_unmatched": r[2] if r else None,
                        "hdr": {x: y for x, y in evs[0]["hdr"].items() if x != "ref"} if evs else None,
-                       "trace": evs, "how": "bin/check C13 --replay <this file>"})
+                       "trace": evs, "how": "bin/check C13 --replay <this file> re-validates this recorded trace; to run the same pacing script again (thread schedules are not reproducible): harness/target/debug/c13 --scenarios work/C13/scenarios.ndjson --random N --seed <seed> --only <case> with the tier's arguments"})
     ctx.assumptions = ["TLC and CommunityModules are correct",
                        "driver projection (payload position tag, field hash) is correct",
                        "std::sync::mpsc behaves as modelled (bounded FIFO, rendezvous at capacity 0, disconnect wakes blocked senders)",
                        "real thread schedules are sampled, not enumerated",
-                       "termination bound 45 s after eos/drop, 90 s per receive, on a machine that may be loaded"]
+                       "termination bound 120 s after eos/drop, 300 s per receive, on a machine that may be loaded"]
